@@ -34,7 +34,7 @@ MANIFEST = {
             "that ARE written as exact instances (correspondence only; those with tuple / extra attributes are written as models since "
             "0b56c35 and are covered, C08_iter_next) and, for path-keyed statements, arithmetic priors (operand names not stored: the one "
             "remaining known finding; C08_round_trip_arith / C08_iter_arith cover them up to those names). Not modelled in Coq (oracle "
-            "only): af.Array models and unary ModifiedPrior (-p; storable since 8d274ac); width_modifier / labels / Model ids are "
+            "only): af.Array models (unary ModifiedPrior -x / abs(x) and subtraction a + (-b), % and // are inside the Coq model since ext-tree: kind KUn, expression EUn, ModelTree NUn / OMod / OFloorDiv; the operand name of a unary form is stored by all three forms, theorems C08_unary_*); width_modifier / labels / Model ids are "
             "not part of the property. Known findings of the tree are class-matched (known_findings/C08.json).",
     "technique": "machine-checked proof in Coq (hand-written codec model over the C01 tree; refinement of the stateful decoder, invariants, "
                  "induction over nested trees) + vm_compute correspondence",
@@ -89,7 +89,16 @@ def children(e):
         return [(str(i), m) for i, m in enumerate(e["members"])]
     if t == "arith":
         return [("l", e["l"]), ("r", e["r"])]
+    if t == "unary":
+        return [("a", e["a"])]
     return []
+
+
+def desugar(e):
+    """An arithmetic program expression as the operators build it: a - b is a + (-b), c - b is (-b) + c (MG.expected_tree)."""
+    if e["t"] in ("arith", "unary"):
+        return MG.expected_tree(e)
+    return e
 
 
 def refs_in(e):
@@ -123,7 +132,7 @@ def levels(e, path=()):
 def zero_out(e, rng):
     """Turn every free parameter below e into a constant (a component without free parameters)."""
     t = e["t"]
-    if t in ("prior", "arith"):
+    if t in ("prior", "arith", "unary"):
         return {"t": "const", "v": (rng.randint(-12, 12) / 4.0).hex()}
     if t == "const":
         return e
@@ -149,7 +158,9 @@ def gen_operand(rng, refs):
         return {"t": "prior", "ref": rng.choice(refs)}
     if r < 0.8:
         return {"t": "const", "v": (rng.randint(-8, 12) / 4.0).hex()}
-    op = rng.choice(["+", "*", "/"])
+    if r < 0.86:
+        return {"t": "unary", "op": rng.choice(["neg", "abs"]), "a": {"t": "prior", "ref": rng.choice(refs)}}
+    op = rng.choice(["+", "*", "/", "-", "%", "//"])
     l = {"t": "prior", "ref": rng.choice(refs)}
     rr = {"t": "const", "v": rng.choice([0.5, 2.0, 4.0]).hex()} if rng.random() < 0.5 else {"t": "prior", "ref": rng.choice(refs)}
     return {"t": "arith", "op": op, "l": l, "r": rr}
@@ -175,7 +186,8 @@ def strip_copies(e):
 
 def gen_case(ctx):
     rng = ctx.rng
-    g = Gen8(rng, max_depth=2 if ctx.tier == "quick" else 3, big_tuples=rng.random() < 0.15)
+    g = Gen8(rng, max_depth=2 if ctx.tier == "quick" else 3, big_tuples=rng.random() < 0.15,
+             more_ops=rng.random() < 0.4, pow_ops=False)       # - neg abs % // (ModelTree: NUn, OMod, OFloorDiv; C08: KUn, EUn)
     prog = g.program()
     prog["root"] = strip_copies(prog["root"])
     root, pool = prog["root"], prog["pool"]
@@ -372,9 +384,13 @@ def same_expected(e, got, c, pool_ids, passed_refs, path=()):
         return True
     if t == "const":
         return got["t"] == "const" and unhex(got["v"]) == unhex(e["v"])
+    if t == "arith" and e["op"] == "-":
+        return same_expected(desugar(e), got, c, pool_ids, passed_refs)
     if t == "arith":
         return (got["t"] == "arith" and got["op"] == e["op"] and same_expected(e["l"], got["l"], c, pool_ids, passed_refs)
                 and same_expected(e["r"], got["r"], c, pool_ids, passed_refs))
+    if t == "unary":
+        return got["t"] == "unary" and got["op"] == e["op"] and same_expected(e["a"], got["a"], c, pool_ids, passed_refs)
     if t in ("model", "coll"):
         if got["t"] != t or (t == "model" and got["cls"] != e["cls"]):
             return False
@@ -436,6 +452,8 @@ def kids(s):
         return [(k, v) for k, v in s["members"]]
     if t == "arith":
         return [(s["rn"], s["r"])] if s["ln"] == s["rn"] else [(s["ln"], s["l"]), (s["rn"], s["r"])]
+    if t == "unary":
+        return [(s["name"], s["a"])]         # the operand's attribute name is stored: not name blind
     return []
 
 
@@ -456,6 +474,8 @@ def arith_blind(s):
     t = s["t"]
     if t == "arith":
         return {"t": "arith", "op": s["op"], "l": arith_blind(s["l"]), "r": arith_blind(s["r"])}
+    if t == "unary":
+        return {"t": "unary", "op": s["op"], "members": [[s["name"], arith_blind(s["a"])]]}
     if t in ("model", "coll", "inst", "array"):
         out = {"t": "node", "cls": s.get("cls"), "attrs": [[k, arith_blind(v)] for k, v in s["attrs"]]}
         if t == "array":
@@ -557,6 +577,8 @@ def canon_expr(e, relabel):
         return ("c", unhex(e["v"]))
     if e["t"] == "arith":
         return ("a", e["op"], canon_expr(e["l"], relabel), canon_expr(e["r"], relabel))
+    if e["t"] == "unary":
+        return ("u", e["op"], canon_expr(e["a"], relabel))
     return ("other", json.dumps(e, sort_keys=True))
 
 
@@ -570,10 +592,10 @@ def canon_assert(a, relabel):
 
 def derived_of(s, relabel, path=()):
     out = []
-    if s["t"] == "arith":
+    if s["t"] in ("arith", "unary"):
         out.append((path, canon_expr(s, relabel)))
     for k, v in kids(s):
-        if s["t"] != "arith":
+        if s["t"] not in ("arith", "unary"):
             out += derived_of(v, relabel, path + (k,))
     return out
 
@@ -815,6 +837,8 @@ def coq_expr(e, rk):
         return "(EPrior %s %s)" % (cnat(rk[e["id"]]), coq_spec(e, rk))
     if e["t"] == "const":
         return "(EConst %s)" % cfloat(unhex(e["v"]))
+    if e["t"] == "unary":
+        return "(EUn %s %s)" % (MG.UNOPS[e["op"]], coq_expr(e["a"], rk))
     return "(EBin %s %s %s)" % (MG.OPS[e["op"]], coq_expr(e["l"], rk), coq_expr(e["r"], rk))
 
 
@@ -837,6 +861,8 @@ def coq_state(s, rk):
                                                clist([cpair(cstr(k), coq_state(v, rk)) for k, v in s["members"]]))
     if t == "arith":
         return "(SNode (KBin %s) %s [])" % (MG.OPS[s["op"]], clist([cpair(cstr(s["ln"]), coq_state(s["l"], rk)), cpair(cstr(s["rn"]), coq_state(s["r"], rk))]))
+    if t == "unary":
+        return "(SNode (KUn %s) %s [])" % (MG.UNOPS[s["op"]], clist([cpair(cstr(s["name"]), coq_state(s["a"], rk))]))
     ch = clist([cpair(cstr(k), coq_state(v, rk)) for k, v in s["attrs"]])
     if t == "coll":
         return "(SNode KColl %s %s)" % (ch, clist([coq_assert(a, rk) for a in s["asserts"]]))
@@ -861,6 +887,13 @@ def printable(s):
                     ok = False
             names(x["l"])
             names(x["r"])
+        if x["t"] == "unary":
+            nm = x["name"]
+            if x["op"] not in MG.UNOPS or x["keys"] != [nm] or nm.startswith("_") or nm in ("id", "cls") \
+                    or not all(32 <= ord(ch) < 127 for ch in nm):
+                ok = False
+        if x["t"] == "arith" and x["op"] not in MG.OPS:
+            ok = False
         if x["t"] == "prior" and x["fam"] not in FAMS:
             ok = False
         for _, v in kids(x) if x["t"] != "arith" else []:
@@ -1239,6 +1272,13 @@ def run(ctx):
         else:
             coq_cases.append(cc)
             coq_idx.append((i, oracle_failed))
+            ctx.hist("correspondence", "compared")
+            js_ = json.dumps(r["states"][0]["state"])
+            for lab_, pat_ in (("KUn neg in the tree / EUn neg in an assertion", '"op": "neg"'), ("KUn abs / EUn abs", '"op": "abs"'),
+                               ("KBin OMod / EBin OMod", '"op": "%"'), ("KBin OFloorDiv / EBin OFloorDiv", '"op": "//"')):
+                if pat_ in js_:
+                    for st_ in c["steps"]:
+                        ctx.hist("correspondence:unary-features", "%s x %s" % (lab_, st_["form"]))
         if i % 30 == 0:
             ctx.sample({"features": sorted(feats), "n_priors": len(prog["pool"]), "trips": [s["form"] for s in c["steps"]],
                         "outcomes": ["ok" if "ok" in s else s["exc"] for s in r["steps"]], "paths": r["states"][0]["paths"][:5]})
